@@ -52,9 +52,14 @@ impl Window {
     }
 }
 
+/// The command-line text of a bound. The same instant is written in a UTC offset that is a pure function of the
+/// instant (one third of the bounds in +00:00, the others in a quarter-hour step of -12:00..+14:00), so that every check
+/// that applies a window also exercises the conversion of a bound's offset by the reader it is handed to.
 pub fn bound_arg(t_ns: i64) -> String {
-    let c = dt::civil(t_ns as i128, 0);
-    dt::strftime(&c, t_ns as i128, "%Y-%m-%dT%H:%M:%S.%6f+00:00")
+    let x = ((t_ns as u64) / 1000).wrapping_mul(0x9E37_79B9_7F4A_7C15) >> 32;
+    let off: i32 = if x % 3 == 0 { 0 } else { (((x / 3) % 105) as i32 - 48) * 900 };
+    let c = dt::civil(t_ns as i128, off);
+    format!("{}{}", dt::strftime(&c, t_ns as i128, "%Y-%m-%dT%H:%M:%S.%6f"), dt::off_colon(off))
 }
 
 const MIN_T: i64 = 86_400 * 2 * 1_000_000_000;
